@@ -182,7 +182,9 @@ namespace svmon
   template <typename T, typename Cfg>
   struct LedgerAllocConstruct<T, Cfg, true>
   {
-    template <typename U, typename ...Args>
+    // SFINAE-friendly, as a well-behaved user allocator would be: the container asks "can you construct from these?"
+    template <typename U, typename ...Args,
+              typename std::enable_if<std::is_constructible<U, Args...>::value>::type * = nullptr>
     void construct (U *p, Args&&... args)
     {
       ++ASTATS ().construct_calls;
